@@ -252,10 +252,9 @@ impl GlobalCollector {
 
     fn handle_commands(&mut self) {
         debug_assert!(self.start_collects.is_empty());
-        debug_assert!(self.drop_collects.is_empty());
-        debug_assert!(self.commit_collects.is_empty());
         debug_assert!(self.submit_spans.is_empty());
         debug_assert!(self.stale_spans.is_empty());
+        // `drop_collects` and `commit_collects` may hold commands kept back by the previous call.
 
         let start_collects = &mut self.start_collects;
         let drop_collects = &mut self.drop_collects;
@@ -263,25 +262,18 @@ impl GlobalCollector {
         let submit_spans = &mut self.submit_spans;
         let stale_spans = &mut self.stale_spans;
 
-        {
-            SPSC_RXS.lock().retain_mut(|rx| {
-                loop {
-                    match rx.try_recv() {
-                        Ok(Some(CollectCommand::StartCollect(cmd))) => start_collects.push(cmd),
-                        Ok(Some(CollectCommand::DropCollect(cmd))) => drop_collects.push(cmd),
-                        Ok(Some(CollectCommand::CommitCollect(cmd))) => commit_collects.push(cmd),
-                        Ok(Some(CollectCommand::SubmitSpans(cmd))) => submit_spans.push(cmd),
-                        Ok(None) => {
-                            // Channel is empty.
-                            return true;
-                        }
-                        Err(_) => {
-                            // Channel closed. Remove it from the channel list.
-                            return false;
-                        }
-                    }
-                }
-            });
+        drain_receivers(start_collects, drop_collects, commit_collects, submit_spans);
+
+        // The receivers are drained one after another, so a commit or cancel received above may
+        // have overtaken commands that other threads sent before it through receivers that had
+        // already been drained: spans finished before the root, the start of the trace, a
+        // cancel. Drain once more to pick those up before the commit or cancel is processed. A
+        // commit or cancel first seen in that second pass may in turn have overtaken other
+        // commands, so it is kept for the next call.
+        let ready_drops = drop_collects.len();
+        let ready_commits = commit_collects.len();
+        if ready_drops + ready_commits > 0 {
+            drain_receivers(start_collects, drop_collects, commit_collects, submit_spans);
         }
 
         // If the reporter is not set, global collectior only clears the channel and then dismiss
@@ -299,13 +291,18 @@ impl GlobalCollector {
                 .insert(collect_id, ActiveCollector::default());
         }
 
-        for DropCollect { collect_id } in self.drop_collects.drain(..) {
+        // A cancel first seen in the second pass is applied now, so that a commit which followed it
+        // finds nothing to report, and once more in the next call, in case the start of the
+        // trace is still on its way.
+        for DropCollect { collect_id } in self.drop_collects.iter() {
+            let collect_id = *collect_id;
             // Cancelling a trace is only supported when `cancelable` is set; otherwise the
             // trace must be kept, together with the events and properties held for it.
             if self.config.cancelable {
                 self.active_collectors.remove(&collect_id);
             }
         }
+        self.drop_collects.drain(..ready_drops);
 
         for SubmitSpans {
             spans,
@@ -357,7 +354,7 @@ impl GlobalCollector {
         let anchor = Anchor::new();
         let mut committed_records = Vec::new();
 
-        for CommitCollect { collect_id } in commit_collects.drain(..) {
+        for CommitCollect { collect_id } in commit_collects.drain(..ready_commits) {
             if let Some(mut active_collector) = self.active_collectors.remove(&collect_id) {
                 postprocess_span_collection(
                     active_collector.span_collections,
@@ -390,6 +387,32 @@ impl GlobalCollector {
 
         self.reporter.as_mut().unwrap().report(committed_records);
     }
+}
+
+fn drain_receivers(
+    start_collects: &mut Vec<StartCollect>,
+    drop_collects: &mut Vec<DropCollect>,
+    commit_collects: &mut Vec<CommitCollect>,
+    submit_spans: &mut Vec<SubmitSpans>,
+) {
+    SPSC_RXS.lock().retain_mut(|rx| {
+        loop {
+            match rx.try_recv() {
+                Ok(Some(CollectCommand::StartCollect(cmd))) => start_collects.push(cmd),
+                Ok(Some(CollectCommand::DropCollect(cmd))) => drop_collects.push(cmd),
+                Ok(Some(CollectCommand::CommitCollect(cmd))) => commit_collects.push(cmd),
+                Ok(Some(CollectCommand::SubmitSpans(cmd))) => submit_spans.push(cmd),
+                Ok(None) => {
+                    // Channel is empty.
+                    return true;
+                }
+                Err(_) => {
+                    // Channel closed. Remove it from the channel list.
+                    return false;
+                }
+            }
+        }
+    });
 }
 
 impl LocalSpansInner {
